@@ -106,7 +106,8 @@ def _find_func(repo, rel: str, qual: str):
     body = m.tree.body
     node = None
     for p in parts:
-        node = next((n for n in body if isinstance(n, (ast.ClassDef, ast.FunctionDef, ast.AsyncFunctionDef)) and n.name == p), None)
+        cands = [n for n in body if isinstance(n, (ast.ClassDef, ast.FunctionDef, ast.AsyncFunctionDef)) and n.name == p]
+        node = cands[-1] if cands else None      # the last definition wins (typing.overload stubs come first)
         if node is None:
             raise Stale(f'{qual} not in {rel}')
         body = node.body
